@@ -106,7 +106,7 @@ func sortSites(fn *ssa.Function) (calls []ssa.CallInstruction, cmps []*ssa.Funct
 			continue
 		}
 		var f *ssa.Function
-		switch x := call.Common().Args[1].(type) {
+		switch x := ArgK(call, 1).(type) {
 		case *ssa.MakeClosure:
 			f, _ = x.Fn.(*ssa.Function)
 		case *ssa.Function:
@@ -497,7 +497,7 @@ func runC06(c *Ctx) {
 				c.Require("C06.R4 pool-add-after-checks", FuncKey(scv)+": "+ck.name, p.InstrPos(s.Call), "Pool.Add is dominated by the passing edge of this step", ck.ok, "")
 			}
 			// what is added is the commit that was checked
-			at := T(s.Call.Common().Args[1]).String()
+			at := T(ArgK(s.Call, 1)).String()
 			okSame := false
 			for _, f := range fs {
 				if strings.Contains(f.String(), "Certificate).Verify(") && strings.Contains(f.String(), at) {
